@@ -210,3 +210,34 @@ mposwit = F('mposwit', ASeq, RArr, Arm)
 axiom('msum.pos', forall([s, c1], z3.Or(msum(s, c1) > 0, alen(s) == 0,
                                          z3.And(amem(s, mposwit(s, c1)), c1[mposwit(s, c1)] <= 0)),
                          [msum(s, c1)]), ['msum'], 'definitional')
+
+# extensionality of real sequences under a mask selection (witness form)
+rdiffw = F('rdiffw', RSeq, RSeq, Int)
+axiom('rsel.ext', forall([r, q, m], z3.Or(rsel(r, m) == rsel(q, m), rlen(r) != rlen(q),
+                                          z3.And(0 <= rdiffw(r, q), rdiffw(r, q) < rlen(r),
+                                                 rat(r, rdiffw(r, q)) != rat(q, rdiffw(r, q)))),
+                         [(rsel(r, m), rsel(q, m))]), ['rsel'], 'definitional')
+# rewards in {0,1}: the sum over any selection lies between 0 and the number of selected rows (lemma: induction)
+rbinary = F('rbinary', RSeq, Bool)
+axiom('rbinary.def', forall([r, i], z3.Implies(z3.And(rbinary(r), 0 <= i, i < rlen(r)),
+                                               z3.Or(rat(r, i) == 0, rat(r, i) == 1)), [(rbinary(r), rat(r, i))]),
+      ['rbinary'], 'definitional')
+rbwit = F('rbwit', RSeq, Int)
+axiom('rbinary.intro', forall([r], z3.Or(rbinary(r), z3.And(0 <= rbwit(r), rbwit(r) < rlen(r),
+                                                            rat(r, rbwit(r)) != 0, rat(r, rbwit(r)) != 1)),
+                              [rbinary(r)]), ['rbinary'], 'definitional')
+axiom('rbinary.selsum', forall([r, m], z3.Implies(rbinary(r), z3.And(0 <= rsum(rsel(r, m)),
+                                                                     rsum(rsel(r, m)) <= bcnt(m))),
+                               [rsum(rsel(r, m))]), ['rbinary', 'rsel'], 'lemma')
+
+axiom('msum.append', forall([s, c1, a], z3.Implies(z3.Not(amem(s, a)), msum(aappend(s, a), c1) == msum(s, c1) + c1[a]),
+                            [msum(aappend(s, a), c1)]), ['msum'], 'definitional')
+axiom('msum.remove', forall([s, c1, a], z3.Implies(z3.And(amem(s, a), adistinct(s)),
+                                                   msum(aremove(s, a), c1) == msum(s, c1) - c1[a]),
+                            [msum(aremove(s, a), c1)]), ['msum'], 'definitional')
+
+rappend = F('rappend', RSeq, Real, RSeq)
+axiom('rappend.len', forall([r, x], rlen(rappend(r, x)) == rlen(r) + 1, [rappend(r, x)]), ['rappend'])
+axiom('rappend.sum', forall([r, x], rsum(rappend(r, x)) == rsum(r) + x, [rappend(r, x)]), ['rappend'])
+axiom('rappend.at', forall([r, x, i], rat(rappend(r, x), i) == z3.If(i == rlen(r), x, rat(r, i)),
+                           [rat(rappend(r, x), i)]), ['rappend'])
